@@ -5,7 +5,8 @@ Mirrors `checker/unitary_checker.py` (`BBUnitaryChecker`, `check_invalid_under_d
 (`check_modified_block`), `ModifiedBlock.flags` (`nodes.py`), `_parse_kwargs`
 (`guppylang/decorator.py`) and `add_unitarity_metadata` (`definition/function.py`),
 as of the repaired code (fix for D7: branch predicates are visited and every argument of a
-call is visited; fix for nested blocks: a `with` body inherits the flags of its context).
+call is visited; fix for nested blocks: a `with` body inherits the flags of its context;
+fix for F2: index expressions of subscripted places and assignment targets are visited).
 
 Import-free; all functions total and structurally recursive. -/
 namespace GuppyVerif.Unitary
@@ -78,8 +79,11 @@ mutual
 inductive Expr where
   /-- constants and other childless nodes -/
   | leaf
-  /-- `PlaceNode`: does its type contain a qubit; does the place contain a subscript -/
-  | place (qubit sub : Bool)
+  /-- `PlaceNode`: does its type contain a qubit; the index expressions of the subscripts on
+      the way from the root variable to the place (`SubscriptAccess.item_expr`; empty = the place
+      contains no subscript).  They are not AST children of the node; `visit_PlaceNode` walks
+      the place to reach them. -/
+  | place (qubit : Bool) (idx : Args)
   /-- `GlobalCall` / `LocalCall` / `TensorCall`: the callee type's `unitary_flags`, the
       arguments, and whether the result type contains a qubit -/
   | call (callee : Flags) (args : Args) (retq : Bool)
@@ -97,8 +101,9 @@ mutual
 inductive Stmt where
   /-- expression statement or `return e` -/
   | expr (e : Expr)
-  /-- `x = e`, `x: T = e`, `x += e`, or `x: T` (no value) -/
-  | assign (v : Option Expr)
+  /-- `t = e`, `t: T = e`, `t += e`, or `t: T` (no value); `t` is the target as the visitor
+      sees it (a place, possibly subscripted) -/
+  | assign (t : Expr) (v : Option Expr)
   | ite (c : Expr) (t f : Block)
   | while (c : Expr) (b : Block)
   /-- nested `with <modifiers>: body`; `cargs` = the arguments of its `control(…)` items as the
@@ -108,6 +113,10 @@ inductive Block where
   | nil
   | cons (s : Stmt) (rest : Block)
 end
+
+def Args.isNil : Args → Bool
+  | .nil => true
+  | .cons _ _ => false
 
 /-- `contain_qubit_ty(get_type(e))` -/
 def Expr.hasQubit : Expr → Bool
@@ -127,7 +136,8 @@ mutual
     that would be raised, in visiting order (the real visitor stops at the first). -/
 def errsExpr (F : Flags) : Expr → List Err
   | .leaf => []
-  | .place _ sub => if F.dagger && sub then [.subscript] else []
+  | .place _ idx =>
+      (if F.dagger && !idx.isNil then [.subscript] else []) ++ errsArgs F idx
   | .call g args _ =>
       -- `_check_call`: arguments first (all of them), then the flag test
       errsArgs F args ++
@@ -143,7 +153,7 @@ mutual
 /-- `len(loop_in_ast(stmt)) != 0` -/
 def Stmt.hasLoop : Stmt → Bool
   | .expr _ => false
-  | .assign _ => false
+  | .assign _ _ => false
   | .ite _ t f => t.hasLoop || f.hasLoop
   | .while _ _ => true
   | .withBlock _ _ b => b.hasLoop
@@ -157,7 +167,7 @@ mutual
     bodies too) -/
 def Stmt.hasAssign : Stmt → Bool
   | .expr _ => false
-  | .assign _ => true
+  | .assign _ _ => true
   | .ite _ t f => t.hasAssign || f.hasAssign
   | .while _ b => b.hasAssign
   | .withBlock _ _ b => b.hasAssign
@@ -171,7 +181,7 @@ mutual
     body, not those of `with` blocks nested in it (`visit_ModifiedBlock` records none) -/
 def Stmt.hasAssignShallow : Stmt → Bool
   | .expr _ => false
-  | .assign _ => true
+  | .assign _ _ => true
   | .ite _ t f => t.hasAssignShallow || f.hasAssignShallow
   | .while _ b => b.hasAssignShallow
   | .withBlock _ _ _ => false
@@ -205,11 +215,11 @@ mutual
     (`visit_Expr`, `_check_assign`) and branch predicates. -/
 def errsStmt (F : Flags) : Stmt → List Err
   | .expr e => errsExpr F e
-  | .assign v =>
+  | .assign t v =>
       if F.dagger then [.assign]
-      else match v with
+      else (match v with
         | some e => errsExpr F e
-        | none => []
+        | none => []) ++ errsExpr F t
   | .ite c t f => errsExpr F c ++ errsBlock F t ++ errsBlock F f
   | .while c b => errsExpr F c ++ errsBlock F b
   | .withBlock cargs G b =>
